@@ -456,7 +456,10 @@ func pbCliDeserialize(pkt *pbx.ClientMsg) *ClientComMessage {
 			Topic: set.GetTopic(),
 		}
 		if sq := set.GetQuery(); sq != nil {
-			msg.Set.MsgSetQuery = *pbSetQueryDeserialize(sq)
+			// The result is nil when the query is present but empty.
+			if q := pbSetQueryDeserialize(sq); q != nil {
+				msg.Set.MsgSetQuery = *q
+			}
 		}
 	} else if del := pkt.GetDel(); del != nil {
 		msg.Del = &MsgClientDel{
